@@ -65,8 +65,12 @@ R11 == TUnion(Nm(84, 1), <<S2, U2, L1>>, UKeyed(<<<<116, 119, 111>>, <<107>>, <<
 R12 == TUnion(Nm(84, 2), <<S6, S3, TInt, TBool, TString>>, UKinded)
 R13 == TMap(Nm(84, 3), S3, TRUE)
 
+\* integers at the boundaries of the Go widths they are bound to (C19): int8, uint8, uint64
+TI8 == TScalar("int", <<73, 56>>)   TU8 == TScalar("int", <<85, 56>>)   TU64 == TScalar("int", <<85, 54, 52>>)
+W1 == TStruct(Nm(87, 1), <<Field(fa, TI8, FALSE, FALSE), Field(fb, TU8, FALSE, FALSE), Field(fc, TU64, TRUE, FALSE)>>, RMap(<<>>))
+
 Types == <<S1, S2, S3, S4, S5, L1, L2, M1, U1, U2, U3, E1, E2, M2, R1, R2, R3, R4, R5, R6, R7, R8, R9, S6, S7, U4,
-           R10, R11, R12, R13>>
+           R10, R11, R12, R13, W1>>
 
 \* ---- inhabitants (typed values in canonical type-level form)
 IntVals == {Scalar("int", <<0, 1>>), Scalar("int", <<0, 2>>)}
@@ -82,7 +86,12 @@ RECURSIVE FieldProd(_, _)
 FieldVals(f) == Inh(f.ty) \cup (IF f.opt THEN {AbsentV} ELSE {}) \cup (IF f.nul THEN {NullV} ELSE {})
 FieldProd(fs, n) == IF n = 0 THEN {<<>>} ELSE {Append(s, x) : s \in FieldProd(fs, n - 1), x \in FieldVals(fs[n])}
 Inh(T) ==
-  CASE T.k = "int" -> IntVals [] T.k = "string" -> StrVals [] T.k = "bool" -> {Scalar("bool", <<1>>)}
+  CASE T.k = "int" -> (IF T.n = <<73, 56>> THEN {Scalar("int", <<0, 127>>), Scalar("int", <<1, 127>>)}           \* 127, -128
+                       ELSE IF T.n = <<85, 56>> THEN {Scalar("int", <<0, 255>>), Scalar("int", <<0>>)}
+                       ELSE IF T.n = <<85, 54, 52>> THEN {Scalar("int", <<0, 255, 255, 255, 255, 255, 255, 255, 255>>),
+                                                        Scalar("int", <<0, 128, 0, 0, 0, 0, 0, 0, 0>>), Scalar("int", <<0, 7>>)}
+                       ELSE IntVals)
+    [] T.k = "string" -> StrVals [] T.k = "bool" -> {Scalar("bool", <<1>>)}
     [] T.k = "link" -> LinkVals
     [] T.k = "enum" -> {Scalar("string", T.ms[i]) : i \in DOMAIN T.ms}
     [] T.k = "list" -> LET E == Inh(T.el) \cup (IF T.nul THEN {NullV} ELSE {})
